@@ -11,6 +11,14 @@ func FullLeaves() []*Node {
 		Range("n", Int(1), Int(5), true), Range("n", Int(1), Int(5), false), Range("n", Open(), Int(5), true),
 		Range("n", Int(2), Open(), false), Range("s", Word("aa"), Word("zz"), true), Range("n", Float("1.5"), Float("2.5"), true),
 		List("s", Word("x"), Word("y")), List("n", Int(1), Int(2), Phrase("z z")),
+		// repeated values and equal bounds
+		List("s", Word("x"), Word("x")), Range("n", Int(5), Int(5), true),
+		// field groups: an arbitrary expression as the value of a field
+		Group("g", Or(Or(T(Word("x")), T(Word("y"))), T(Wild("z*")))), Group("g", And(T(Word("x")), T(Int(2)))), Group("g", Not(T(Word("x")))),
+		Group("g", Or(T(Word("x")), Or(T(Word("y")), T(Int(3))))), Group("g", Or(T(Word("x")), F("h", Word("y")))), Group("g", Jux(T(Word("x")), MustNot(T(Word("y"))))),
+		Group("g", T(Phrase("one value"))),
+		// regular expressions with escapes, numeric field names
+		F("f", Regexp(`/C:\\/`)), T(Regexp(`/a\/b/`)), FV(Int(5), Wild("c*")), FV(Float("1.5"), Word("x")),
 	}
 }
 
@@ -20,6 +28,7 @@ func QuickLeaves() []*Node {
 		T(Word("a")), T(Int(5)), T(Phrase("q s")),
 		F("f", Word("b")), F("f", Wild("x*")),
 		Cmp("n", ">=", Int(4)), Range("n", Int(1), Int(5), true), List("s", Word("x"), Word("y")),
+		Group("g", Or(Or(T(Word("x")), T(Word("y"))), T(Wild("z*")))), List("s", Word("x"), Word("x")),
 	}
 }
 
